@@ -231,6 +231,29 @@ CLAIMED["C19"] = dict(
          "not modelled. aso/aeif array algebra is covered by the stand-in only (grids with >= 1 point).",
 )
 
+CLAIMED["C13"] = dict(
+    text="Constitution part under contract, handedness only bounded. Proved with a symbolic element tree (tree spine concrete per case: "
+         "<= 3 nodes / 2 bonds per fragment, every combination of present/absent attributes; attribute VALUES symbolic): position = centre "
+         "of BoundingBox else p else ValueError; _parse_atom_node gives the drawn element (carbon when omitted), isotope, formal charge, "
+         "radical-electron count (Doublet 1, Singlet/Triplet 2), AtomNumber label, hydrogen hint, and attachment points of unknown element "
+         "with the documented label for the five special node types; _parse_bond maps Order (omitted/1/2/3/4/1.5) and end points by node id, "
+         "Dash -> ligand bond; _parse_fragment builds one atom per drawn node in document order, one bond per drawn bond between the drawn "
+         "nodes, total charge = sum of formal charges, multiplicity = radical electrons + 1, name = label, non-chemical children ignored, "
+         "stereo marks dispatched from the narrow end with the drawn sense, and the mirrored drawing (wedge<->hash, bold<->hash) has the same "
+         "constitution with every out-of-plane request negated; _cdxml_3dify_ touches coordinates only, is odd in the sign on the ring and "
+         "bold/hash branches and rotates only the substituent beyond the wide end about the narrow end; __getitem__ picks the first KD-tree "
+         "candidate above the label (KeyError if none), passes the label as name, and a label (or its integer position) resolves to the same "
+         "fragment on every call even if the KD-tree answers differently. NOT proved -- bounded stand-in on the real reader, labelled "
+         "bounded: handedness inversion of every non-planar centre, determinism of the 3-D model and an independent ElementTree constitution "
+         "oracle on the 116 labelled fragments of the 7 bundled drawings and their mirrored variants.",
+    ref="DESIGN.md section 3 C13, section 4",
+    category="proof",
+    note="The handedness clause is NOT decided deductively (mean_plane uses an SVD whose sign convention is outside any contract here; "
+         "rotation numerics; join with rotation optimisation for nested fragments): only the bounded stand-in on bundled drawings covers it, "
+         "and it also runs in the quick tier. Hapto centres excluded as in the statement. KD-tree query and xml.etree are assumed "
+         "(ElementPath subset modelled, including that '..' has no meaning at the context node).",
+)
+
 NOT_APPLICABLE = {
 }
 
